@@ -77,6 +77,8 @@ func c13Lexical(t *rapid.T) *DCase {
 		case 1:
 			return ast.Str(rapid.SampledFrom([]string{"tab\\tx\\\\y", "C:\\\\dir\\\\", "\\\\", "\\\\\\\\", "end\\n", "\\t", "a\\\\\\n",
 				// an escaped backslash directly followed by the letters n and t (no line feed, no tab)
+				// multi-byte text next to an escape
+				"café\\tau lait", "日本\\n語", "é\\\\é", "→\\t←",
 				"a\\\\nb", "C:\\\\new\\\\table", "\\\\n", "\\\\t", "\\\\\\\\n\\\\\\t"}).Draw(t, "escstr"))
 		case 2:
 			return ast.Str("it's")
